@@ -46,13 +46,15 @@ META = {'master_table_number': 0, 'originating_centre': 98, 'originating_subcent
 TEMPLATES = [('plain', [1001, 5002], 1, False), ('comp', [301001, 12001], 2, True), ('repl', [102002, 1001, 2001, 205003], 3, False)]
 
 
-def pool():
+def pool(category=None, variants=None):
     """[(name, bytes, spec, expected sections {index: {name: value}})]"""
     out = []
     B, D = S.tables_for(33)
     for ed in (2, 3, 4):
         for s2 in (None, b'\xa5\x0f'):
             for tname, descs, nsub, comp in TEMPLATES:
+                if variants is not None and (tname, ed, s2 is not None) not in variants:
+                    continue
                 cnt = [0]
 
                 def chooser(info):
@@ -66,9 +68,12 @@ def pool():
                 meta = dict(META)
                 if ed < 4:
                     meta['year'] = 99
+                if category is not None:
+                    meta['data_category'] = category
                 spec = message.Spec(edition=ed, meta=meta, sec2=s2, descs=descs, nsub=nsub, compressed=comp)
                 b, info = message.build(spec, buf)
-                out.append(('%s-ed%d-%s' % (tname, ed, 's2' if s2 is not None else 'no2'), b, spec, expected_sections(b, spec)))
+                out.append(('%s-ed%d-%s%s' % (tname, ed, 's2' if s2 is not None else 'no2', '' if category is None else '-cat%d' % category),
+                            b, spec, expected_sections(b, spec)))
     return out
 
 
@@ -450,6 +455,15 @@ def main(tier, seed):
     rep.add_part('infoonly', p, bounds={'messages': len(items), 'c04_structures': len(extra), 'xor_masks': ['ff', '01'],
                                         'fills': 4}, exhaustive=True,
                  extra={'note': 'quick visits the 1/8 slice (by VERIF_SEED) of the C04 structure pool, thorough all of it'})
+    # every data category (the scanner treats category 11 = table definitions specially when data are decoded; reading
+    # metadata only must not look at the data of ANY category), one message per edition
+    cat_variants = {('plain', 4, False), ('comp', 3, True), ('repl', 2, False)}
+    cats = list(range(256))
+    citems = [it for c in cats for it in pool(category=c, variants=cat_variants)]
+    p = merge_all(run_shards(run_infoonly, split(citems, 64)))
+    p.n['nodes'], p.n['edges'] = p.n['exec'] + 1, p.n['exec']
+    rep.add_part('infoonly-categories', p, bounds={'data_categories': len(cats), 'messages': len(citems), 'xor_masks': ['ff', '01'],
+                                                   'fills': 4, 'templates': sorted('%s-ed%d' % (t, e) for t, e, _ in cat_variants)})
     p = merge_all(run_shards(run_option_histories, [([it], items) for it in items]))
     rep.add_part('infoonly-option-histories', p, bounds={'messages': len(items), 'earlier_calls': '<= 2 from {full, metadata-only} x '
                                                          '{ignore_value_expectation or not} x {this message, another edition}',
